@@ -9,9 +9,9 @@ import vlib  # noqa: E402
 
 
 def families():
-    import fam_ring, fam_inbox, fam_actor, fam_wire, fam_events, fam_reqresp, fam_cluster
+    import fam_ring, fam_inbox, fam_actor, fam_wire, fam_events, fam_reqresp, fam_cluster, fam_remote
     table = {}
-    for mod in (fam_ring, fam_inbox, fam_actor, fam_wire, fam_events, fam_reqresp, fam_cluster):
+    for mod in (fam_ring, fam_inbox, fam_actor, fam_wire, fam_events, fam_reqresp, fam_cluster, fam_remote):
         table.update(mod.CHECKS)
     return table
 
